@@ -228,4 +228,19 @@ fire("c13-msgids-write", ["C13"], MSG, "        except KeyError:\n            re
 silent("c13-local-copy-mutated", ["C13"], [(MSG, "        adef = pdict[anam]  # get attribute definition\n", "        adef = pdict[anam]  # get attribute definition\n        scratch = dict(pdict)\n        scratch[\"_x\"] = 1\n")], "mutating a fresh copy is harmless")
 silent("c13-instance-cache", ["C13"], [(MSG, "        self._cellmap = None\n", "        self._cellmap = None\n        self._seen = []\n        self._seen.append(1)\n")], "per-instance state is not shared")
 
+# ----------------------------------------------------------------------------- C11
+fire("c11-truncate-plus1", ["C11"], SOCK, "self._buffer = self._buffer[num:]", "self._buffer = self._buffer[num + 1 :]", "one byte lost per read")
+fire("c11-buffer-cleared-on-timeout", ["C11"], SOCK, "        except (OSError, TimeoutError):\n            return False", "        except (OSError, TimeoutError):\n            self._buffer = bytearray()\n            return False", "a timeout loses buffered data (survives the test-suite)")
+fire("c11-assign-not-append", ["C11"], SOCK, "                self._buffer += data", "                self._buffer = bytearray(data)", "refill overwrites unread bytes")
+fire("c11-partial-returned-on-close", ["C11"], SOCK, "            if not self._recv():\n                return b\"\"", "            if not self._recv():\n                return bytes(self._buffer)", "buffer returned without being consumed: duplicated on the next read")
+fire("c11-return-more", ["C11"], SOCK, "        data = self._buffer[:num]\n", "        data = self._buffer[: max(num, 2)]\n", "read(1) may return 2 bytes")
+fire("c11-loop-le", ["C11"], SOCK, "while len(self._buffer) < num:", "while len(self._buffer) < num - 1:", "short reads without close/timeout")
+fire("c11-store-before-empty-check", ["C11"], SOCK, "            if len(data) == 0:\n                return False\n            if self._encoding & ENCODE_CHUNKED:", "            self._partial = b\"\"\n            if len(data) == 0:\n                return False\n            if self._encoding & ENCODE_CHUNKED:", "partial chunk dropped at every receive")
+fire("c11-readline-drops-byte", ["C11"], SOCK, "            if len(data) == 1:\n                line += data\n                if line[-2:]", "            if len(data) == 1:\n                if data != b\"\\r\":\n                    line += data\n                if line[-2:]", "CR bytes dropped from lines")
+fire("c11-readline-lf-only", ["C11"], SOCK, '                if line[-2:] == b"\\r\\n":\n                    break\n            else:', '                if line[-1:] == b"\\r":\n                    break\n            else:', "line ends before the LF, which is left in the buffer")
+fire("c11-reader-no-wrap", ["C11"], RDR, "            self._stream = SocketWrapper(datastream, encoding=encoding, bufsize=bufsize)", "            self._stream = SocketWrapper(datastream, encoding=encoding)", "bufsize not forwarded")
+fire("c11-prepend", ["C11"], SOCK, "                self._buffer += data", "                self._buffer = bytearray(data) + self._buffer", "segments reordered")
+silent("c11-del-idiom", ["C11"], [(SOCK, "        data = self._buffer[:num]\n        self._buffer = self._buffer[num:]\n        return bytes(data)", "        data = bytes(self._buffer[:num])\n        del self._buffer[:num]\n        return data")], "equivalent truncation idiom")
+silent("c11-loop-style", ["C11"], [(SOCK, "            if not self._recv():\n                return b\"\"", "            ok = self._recv()\n            if not ok:\n                return b\"\"")], "equivalent")
+
 VARIANTS = V
